@@ -1256,9 +1256,162 @@ fn random_line(sec: Sec, r: &mut Rng, out: &mut Out) -> String {
     }
 }
 
+
+// ---------------------------------------------------------------------------
+// numeric stress: decimal texts chosen to be hard for a decimal -> binary
+// conversion (exact ties between neighbouring floats, one digit above / below
+// a tie, subnormals, long digit strings, shortest and over-long renderings)
+// ---------------------------------------------------------------------------
+
+/// exact decimal expansion of m * 2^e (m > 0), by digit arithmetic
+fn exact_decimal(m: u64, e: i32) -> String {
+    let mut d: Vec<u8> = m.to_string().bytes().map(|b| b - b'0').rev().collect(); // least significant first
+    let mul = |d: &mut Vec<u8>, k: u8| {
+        let mut carry = 0u32;
+        for x in d.iter_mut() {
+            let v = *x as u32 * k as u32 + carry;
+            *x = (v % 10) as u8;
+            carry = v / 10;
+        }
+        while carry > 0 {
+            d.push((carry % 10) as u8);
+            carry /= 10;
+        }
+    };
+    if e >= 0 {
+        for _ in 0..e {
+            mul(&mut d, 2);
+        }
+        return d.iter().rev().map(|x| (b'0' + x) as char).collect();
+    }
+    let k = (-e) as usize;
+    for _ in 0..k {
+        mul(&mut d, 5);
+    }
+    while d.len() <= k {
+        d.push(0);
+    }
+    let s: String = d.iter().rev().map(|x| (b'0' + x) as char).collect();
+    let (ip, fp) = s.split_at(s.len() - k);
+    let fp = fp.trim_end_matches('0');
+    if fp.is_empty() {
+        ip.to_string()
+    } else {
+        format!("{ip}.{fp}")
+    }
+}
+
+/// (mantissa, exponent) of a positive finite f64 / f32: x = m * 2^e
+fn decompose64(x: f64) -> (u64, i32) {
+    let b = x.to_bits();
+    let ex = ((b >> 52) & 0x7ff) as i32;
+    let fr = b & ((1u64 << 52) - 1);
+    if ex == 0 {
+        (fr, -1074)
+    } else {
+        (fr | (1u64 << 52), ex - 1075)
+    }
+}
+fn decompose32(x: f32) -> (u64, i32) {
+    let b = x.to_bits();
+    let ex = ((b >> 23) & 0xff) as i32;
+    let fr = (b & ((1u32 << 23) - 1)) as u64;
+    if ex == 0 {
+        (fr, -149)
+    } else {
+        (fr | (1u64 << 23), ex - 150)
+    }
+}
+
+/// texts around the tie between x and the next float above it
+fn tie_texts(m: u64, e: i32, r: &mut Rng) -> Vec<String> {
+    let tie = exact_decimal(2 * m + 1, e - 1);
+    let mut v = vec![tie.clone()];
+    // one unit in a far digit above / below the tie
+    v.push(format!("{tie}{}1", "0".repeat(r.below(6))));
+    if let Some(body) = tie.strip_suffix('5') {
+        v.push(format!("{body}4{}", "9".repeat(1 + r.below(30))));
+    }
+    v
+}
+
+fn rand_pos_f64(r: &mut Rng) -> f64 {
+    match r.below(8) {
+        0 => f64::from_bits(r.next() % (1u64 << 53)),                                  // subnormal / tiny
+        1 => f64::from_bits((r.next() % (1u64 << 52)) | ((r.below(40) as u64 + 1) << 52)), // near the smallest normals
+        2 => (r.next() % (1u64 << 31)) as f64 + r.unit(),                              // anywhere within the limit
+        3 => 2147483647.0 - r.unit() * 4.0,                                            // just below the limit
+        4 => 2147483647.0 + r.unit() * 400.0,                                          // around / above the limit
+        5 => r.unit() * 10.0,
+        6 => f64::from_bits(0x3ff0_0000_0000_0000 - 0x0350_0000_0000_0000 + (r.next() % 0x0550_0000_0000_0000)), // 2^-53 .. 2^32
+        _ => f64::from_bits(r.next() & 0x7fef_ffff_ffff_ffff),                         // any finite
+    }
+}
+
+fn numeric_text(r: &mut Rng, out: &mut Out) -> String {
+    let x = rand_pos_f64(r);
+    let neg = if r.chance(1, 5) { "-" } else { "" };
+    let body = match r.below(10) {
+        0 => {
+            out.count("numeric.tie64");
+            let (m, e) = decompose64(x);
+            if m == 0 { "0".to_string() } else { let tt = tie_texts(m, e, r); r.pick(&tt).clone() }
+        }
+        1 | 2 => {
+            out.count("numeric.tie32");
+            let y = x as f32;
+            let y = if y.is_finite() { y } else { 1.5f32 };
+            let (m, e) = decompose32(y);
+            if m == 0 { "0".to_string() } else { let tt = tie_texts(m, e, r); r.pick(&tt).clone() }
+        }
+        3 => {
+            out.count("numeric.exact64");
+            let (m, e) = decompose64(x);
+            if m == 0 { "0".to_string() } else { exact_decimal(m, e) }
+        }
+        4 => {
+            out.count("numeric.shortest");
+            format!("{x}")
+        }
+        5 => {
+            out.count("numeric.scientific");
+            if r.chance(1, 2) { format!("{x:e}") } else { format!("{x:E}") }
+        }
+        6 => {
+            out.count("numeric.fixed_digits");
+            let p = r.below(40);
+            if x < 1e30 { format!("{x:.p$}") } else { format!("{x:.p$e}") }
+        }
+        7 => {
+            out.count("numeric.shortest32");
+            format!("{}", x as f32)
+        }
+        _ => {
+            out.count("numeric.random_digits");
+            let n = 1 + r.below(30);
+            let mut s = String::new();
+            let dot = r.below(n + 1);
+            for i in 0..n {
+                if i == dot && r.chance(2, 3) {
+                    s.push('.');
+                }
+                s.push((b'0' + r.below(10) as u8) as char);
+            }
+            if r.chance(1, 2) {
+                s.push(*r.pick(&['e', 'E']));
+                s.push_str(*r.pick(&["", "+", "-"]));
+                let top = if r.chance(1, 4) { 400 } else { 40 };
+                s.push_str(&format!("{}", r.below(top)));
+            }
+            s
+        }
+    };
+    format!("{neg}{body}")
+}
+
 const SECTIONS: [Sec; 6] = [Sec::General, Sec::Editor, Sec::Metadata, Sec::Difficulty, Sec::Events, Sec::Colors];
 
-pub const RULE: &str = "sequences of section lines run through the public parse_general/parse_editor/parse_metadata/parse_difficulty/parse_events/parse_colors on a fresh state: (a) matrix: every recognised key x value class table (valid, boundary +-2147483647/8, overflow incl. 400 digits and 1e999999, NaN/inf, empty, forms such as +7 -0 1e5 .5 5. 0x10) x 16 decorations (plain, padded with space/tab/U+00A0/U+3000/mixed Unicode white space, comment-suffixed, three extra-colon shapes, white space around the key, indented line), each alone and after a valid record of the same key; (b) event lines (all types, quoted/backslashed/non-ASCII file names, video and image extensions in both cases, short names, break boundary numerics) and colour lines (combo/named/other keys x 3/4/5-component values); (c) random sequences of 1-10 lines, mostly valid, with duplicates, unknown keys, case variants, missing colons, blank and comment lines. non-trivial = the final state differs from the default or at least one line was rejected; distinct = distinct case lines";
+pub const RULE: &str = "sequences of section lines run through the public parse_general/parse_editor/parse_metadata/parse_difficulty/parse_events/parse_colors on a fresh state: (a) matrix: every recognised key x value class table (valid, boundary +-2147483647/8, overflow incl. 400 digits and 1e999999, NaN/inf, empty, forms such as +7 -0 1e5 .5 5. 0x10) x 16 decorations (plain, padded with space/tab/U+00A0/U+3000/mixed Unicode white space, comment-suffixed, three extra-colon shapes, white space around the key, indented line), each alone and after a valid record of the same key; (b) event lines (all types, quoted/backslashed/non-ASCII file names, video and image extensions in both cases, short names, break boundary numerics) and colour lines (combo/named/other keys x 3/4/5-component values); (b') numeric stress: decimal texts of exact ties between neighbouring f32/f64 values and one digit above/below them, exact expansions, subnormals, shortest / scientific / over-long renderings, random digit strings with exponents, integers around +-2^31, through an f64, an f32 and an i32 field and break times; (c) random sequences of 1-10 lines, mostly valid, with duplicates, unknown keys, case variants, missing colons, blank and comment lines. non-trivial = the final state differs from the default or at least one line was rejected; distinct = distinct case lines";
 
 pub fn generate(tier: &str, seed: u64, out: &mut Out) {
     let thorough = tier == "thorough";
@@ -1334,6 +1487,28 @@ pub fn generate(tier: &str, seed: u64, out: &mut Out) {
                 run_case(Sec::Events, &[format!("2,1000,{a}")], "matrix.break", out, &mut known);
             }
         }
+    }
+
+    // (b') numeric stress through an f64 field, an f32 field and an i32 field
+    let n = if thorough { 40000 } else { 2500 };
+    for i in 0..n {
+        let text = numeric_text(&mut r, out);
+        match i % 5 {
+            0 | 1 => run_case(Sec::Editor, &[format!("DistanceSpacing:{text}")], "numeric", out, &mut known),
+            2 | 3 => run_case(Sec::Difficulty, &[format!("HPDrainRate: {text}")], "numeric", out, &mut known),
+            _ => run_case(Sec::Events, &[format!("2,{text},{}", numeric_text(&mut r, out))], "numeric", out, &mut known),
+        }
+    }
+    for _ in 0..(if thorough { 5000 } else { 500 }) {
+        let n: i64 = match r.below(4) {
+            0 => r.range(-300, 300),
+            1 => 2147483647 - r.range(-3, 3),
+            2 => -2147483647 + r.range(-3, 3),
+            _ => (r.next() % (1u64 << 33)) as i64 - (1i64 << 32),
+        };
+        let text = if r.chance(1, 6) { format!("+{n}") } else if r.chance(1, 6) { format!("{:03}", n) } else { format!("{n}") };
+        run_case(Sec::General, &[format!("PreviewTime:{text}"), format!("AudioLeadIn: {text} ")], "numeric.int", out, &mut known);
+        run_case(Sec::Colors, &[format!("Combo1:{text},{},{}", n.rem_euclid(300), n.rem_euclid(256))], "numeric.int", out, &mut known);
     }
 
     // (c) random sequences
